@@ -12,6 +12,18 @@ binary part (types `u8 i8 u16 i16 u32 i32 u64 i64 f32 f64`, byte order `L`/`B`):
 * `seq T E v1,v2,…`       → all values written to one stream, its bytes, all read back plus one read too many
 * `rd T E <hex>`          → `io::read` until it fails: the values, then `none`
 * `revmem <hex>`          → `reverse_mem` on a buffer of exactly that size
+
+textual part (destination types `c8 u8 i8` = `char`, `unsigned char`, `signed char`; `u16 … i64` numbers; `W` = through
+`std::wstring`, `N` = through `std::string`):
+* `ots D v`               → `output_to_std_string(v)` as hex
+* `efs N|W D <hex>`       → `extract_from_string<D>` of that text: `some v` / `none`
+* `rtd N|W D v`           → `s=<output_to_string> r=<extract_from_string of it>`
+* `rtds N|W D lo n`       → digest of the `rtd` lines for `v = lo … lo+n-1`
+* `enum K e`              → enumerator `e` of test enum `K`: `ts=<to_string> fs=<from_string of it> out=<stream output> in=<stream input of it> eof= fail=`
+* `efrom K <hex>`         → `from_string<K>` of that text
+* `ein K <hex>`           → `stream >> e` repeated (at most 8 times) on that text: the enumerators, then `eof= fail= rest=<unread characters>`
+* `vec T N v1,…,vN`       → `out=<stream output of vector<T,N>> in=<read back> eof= fail= rest=`
+* `vin T N <hex>`         → `stream >> vector<T,N>` on that text: `<values|fail> eof= fail= rest=`
 -/
 namespace Fcppt.C15.Drv
 open Fcppt.Proto
@@ -105,10 +117,110 @@ def handleBin (toks : List String) : Option String :=
     some (showE hexOf (reverseMem bs))
   | _ => none
 
+/-! ### textual part -/
+
+def parseDest : String → Option Dest
+  | "c8" => some (.char true) | "i8" => some (.char true) | "u8" => some (.char false)
+  | "u16" => some (.num ⟨2, false⟩) | "i16" => some (.num ⟨2, true⟩)
+  | "u32" => some (.num ⟨4, false⟩) | "i32" => some (.num ⟨4, true⟩)
+  | "u64" => some (.num ⟨8, false⟩) | "i64" => some (.num ⟨8, true⟩)
+  | _ => none
+
+def destTy : Dest → IntTy
+  | .char sg => ⟨1, sg⟩
+  | .num t => t
+
+def optSome : Option Int → String
+  | some v => s!"some {v}" | none => "none"
+
+def rtdLine (d : Dest) (v : Int) : String :=
+  let s := outputToString d v
+  s!"s={hexOf s} r={optSome (extractFromString d s)}"
+
+def rtdsDigest (d : Dest) (lo : Int) (n : Nat) : String :=
+  let h := (List.range n).foldl (fun h (i : Nat) => fnv h (rtdLine d (lo + (i : Int)))) fnvInit
+  "D " ++ hex64 h
+
+def str (s : String) : List Ch := s.toList.map Char.toNat
+
+def enumNames : Nat → Option (List (List Ch))
+  | 1 => some [str "test1", str "test2", str "test3"]
+  | 2 => some [str "foo", str "bar", str "baz", str "fo", str "foobar"]
+  | 3 => some [str "a", str "b", str "a"]
+  | 4 => some [str "only"]
+  | _ => none
+
+def optNat : Option Nat → String
+  | some v => toString v | none => "none"
+
+def enumLine (names : List (List Ch)) (e : Nat) : String :=
+  match enumToString names e, enumOutput names [] e with
+  | .ok n, .ok out =>
+    let (s, r) := enumInput names (IStream.ofString out)
+    s!"ts={hexOf n} fs={optNat (enumFromString names n)} out={hexOf out} in={optNat r} eof={b01 s.eof} fail={b01 s.fail}"
+  | _, _ => "bad-op"
+
+def einLoop (names : List (List Ch)) : Nat → IStream → List String → IStream × List String
+  | 0, s, acc => (s, acc.reverse)
+  | fuel + 1, s, acc =>
+    let (s, r) := enumInput names s
+    match r with
+    | some e => einLoop names fuel s (toString e :: acc)
+    | none => (s, acc.reverse)
+
+def einLine (names : List (List Ch)) (text : List Ch) : String :=
+  let (s, es) := einLoop names 8 (IStream.ofString text) []
+  s!"{if es.isEmpty then "-" else ",".intercalate es} eof={b01 s.eof} fail={b01 s.fail} rest={s.buf.length}"
+
+def vecTy : String → Option IntTy
+  | "i32" => some ⟨4, true⟩ | "u16" => some ⟨2, false⟩ | "i64" => some ⟨8, true⟩ | "u32" => some ⟨4, false⟩
+  | _ => none
+
+def vinShow (p : IStream × List Int) : String :=
+  let (s, vs) := p
+  s!"{if s.fail then "fail" else intList vs} eof={b01 s.eof} fail={b01 s.fail} rest={s.buf.length}"
+
+def handleText (toks : List String) : Option String :=
+  match toks with
+  | ["ots", d, v] => do
+    let d ← parseDest d; let v ← v.toInt?
+    if (destTy d).InRange v then some (hexOf (outputToString d v)) else none
+  | ["efs", w, d, hx] => do
+    let d ← parseDest d; let bs ← parseHex hx
+    if w = "N" ∨ w = "W" then some (optSome (extractFromString d bs)) else none
+  | ["rtd", w, d, v] => do
+    let d ← parseDest d; let v ← v.toInt?
+    if (w = "N" ∨ w = "W") ∧ (destTy d).InRange v then some (rtdLine d v) else none
+  | ["rtds", w, d, lo, n] => do
+    let d ← parseDest d; let lo ← lo.toInt?; let n ← n.toNat?
+    if (w = "N" ∨ w = "W") ∧ n ≠ 0 ∧ (destTy d).InRange lo ∧ (destTy d).InRange (lo + n - 1) then some (rtdsDigest d lo n) else none
+  | ["enum", k, e] => do
+    let names ← enumNames (← k.toNat?); let e ← e.toNat?
+    if e < names.length then some (enumLine names e) else none
+  | ["efrom", k, hx] => do
+    let names ← enumNames (← k.toNat?); let bs ← parseHex hx
+    some (optNat (enumFromString names bs))
+  | ["ein", k, hx] => do
+    let names ← enumNames (← k.toNat?); let bs ← parseHex hx
+    some (einLine names bs)
+  | ["vec", ty, n, vs] => do
+    let t ← vecTy ty; let n ← n.toNat?; let vs ← parseIntList vs
+    if 1 ≤ n ∧ n ≤ 4 ∧ vs.length = n ∧ vs.all (fun v => t.InRange v) then
+      let out := vecOutput vs []
+      some s!"out={hexOf out} in={vinShow (vecInput t n (IStream.ofString out))}"
+    else none
+  | ["vin", ty, n, hx] => do
+    let t ← vecTy ty; let n ← n.toNat?; let bs ← parseHex hx
+    if 1 ≤ n ∧ n ≤ 4 then some (vinShow (vecInput t n (IStream.ofString bs))) else none
+  | _ => none
+
 def handle (toks : List String) : String :=
   match handleBin toks with
   | some r => r
-  | none => "bad-op"
+  | none =>
+    match handleText toks with
+    | some r => r
+    | none => "bad-op"
 
 def main : IO Unit := Proto.run handle
 
